@@ -14,6 +14,15 @@ var oddStrings = []string{
 	"<html>&amp;", "a/b/c", "{X}", "\"", "\\", "\\\"", "\\u0041", "ünï/cödé.py", "\x1f",
 }
 
+func init() {
+	// every C0 control character (and DEL) on its own, between two hex-digit letters: an escape
+	// that is too short, not padded, or one of Go's non-JSON escapes (\v) shows at once
+	for c := 0; c < 32; c++ {
+		oddStrings = append(oddStrings, "c"+string(rune(c))+"ab")
+	}
+	oddStrings = append(oddStrings, "c\x7fab", "\x0b", "\x0c\x08")
+}
+
 func genStr(rng *Rng, odd int) string {
 	if rng.Chance(odd) {
 		return rng.Pick(oddStrings)
